@@ -163,8 +163,9 @@ pub fn rate_representable(r: &routee_compass_core::model::cost::vehicle::vehicle
 }
 
 fn hhmmss(ms: u64) -> String {
+    // the configuration syntax has one-second resolution (hh:mm:ss)
     let s = ms / 1000;
-    format!("{:02}:{:02}:{:02}.{:03}", s / 3600, (s / 60) % 60, s % 60, ms % 1000)
+    format!("{:02}:{:02}:{:02}", s / 3600, (s / 60) % 60, s % 60)
 }
 
 fn term_toml(t: &TermCfg, table: &str) -> String {
